@@ -367,6 +367,59 @@ def gen_slot_limit(rng, o, slots, n):
     return out
 
 
+DUP_VALUES = [b"null", b"true", b"false", b"0", b"-1.5", b'"s"', b'""', b"[]", b"[1,2]", b"{}", b'{"a":1}', b'[{"a":[true]}]']
+DUP_FILTERS = None
+
+
+def gen_duplicate_keys(rng, o, filters=False):
+    """Objects in which a key occurs twice (and three times), for EVERY ordered pair of value kinds (null, booleans,
+    numbers, strings, empty and non-empty arrays and objects), the occurrences adjacent or separated by another
+    member, at top level and nested; the last occurrence wins at the position of the first.  With filters=True
+    each text comes with filters that keep the key entirely, through a nested array / object filter, through "*",
+    or not at all."""
+    out = []
+    flt = [TRUE]
+    if filters:
+        kT = node("o", c=[node("m", b"k", [TRUE])])
+        kArr = node("o", c=[node("m", b"k", [node("a", c=[TRUE])])])
+        kObj = node("o", c=[node("m", b"k", [node("o", c=[node("m", b"a", [TRUE])])])])
+        star = node("o", c=[node("m", b"*", [node("a", c=[TRUE])])])
+        other = node("o", c=[node("m", b"x", [TRUE])])
+        flt = [kT, kArr, kObj, star, other, node("a", c=[kArr]), node("a", c=[kObj])]
+    for v1 in DUP_VALUES:
+        for v2 in DUP_VALUES:
+            sep = rng.choice([b",", b', "x":1,', b' ,"x" : [0] , '])
+            v3 = rng.choice(DUP_VALUES)
+            texts = [b'{"k":' + v1 + sep + b'"k":' + v2 + b"}",
+                     b'[{"k":' + v1 + b',"k":' + v2 + b',"y":2}]',
+                     b'{"k":' + v1 + b',"k":' + v2 + b',"k":' + v3 + b"}"]
+            for t in texts:
+                for f in flt:
+                    out.append(line(t, o, lim=10, f=f, tag="dupkey"))
+    return out
+
+
+def gen_flat(o, sizes=(4, 600)):
+    """Inputs that grow in LENGTH without growing in depth: many elements, members, string bytes, blanks and (when
+    enabled) consecutive comments; the stack consumed must not depend on the size (tag: flat n=.. L=.. shape=..)."""
+    out = []
+    for n in sizes:
+        shapes = {"elements": b"[" + b"1," * n + b"1]",
+                  "members": b"{" + b",".join(b'"k%d":%d' % (i, i % 10) for i in range(n)) + b"}",
+                  "nested-elements": b'{"a":[[' + b"true," * n + b"null]]}",
+                  "string": b'"' + b"x" * n + b'"',
+                  "blanks": b" \n" * n + b"[1]"}
+        if o["comments"]:
+            shapes["block-comments"] = b"/**/" * n + b"[1]"
+            shapes["line-comments"] = b"//c\n" * n + b"1"
+            shapes["comments-in-array"] = b"[" + b"/*x*/ " * n + b"1," + b"//y\n" * n + b"2]"
+            shapes["comments-in-object"] = b'{"a"' + b"/**/" * n + b":" + b"/**/" * n + b"1}"
+        for name, text in shapes.items():
+            for f in (TRUE, FALSE):
+                out.append(line(text, o, lim=10, f=f, tag=f"flat n={n} L=10 shape={name}"))
+    return out
+
+
 def gen_escape_offsets(o, maxoff=140):
     """\\u escapes (2-, 3-, 4-byte results, NUL, a named escape) at every offset of a string or key, so
     that the decoded bytes land on every position of the string buffer (which starts at 31 bytes and doubles)."""
